@@ -154,9 +154,13 @@ def is_json_number(s):
     return RE_JSON_NUMBER.match(s) is not None
 
 
-# DSL literal carrier: only forms the documentation itself writes as literals (7, 8.9, 1e5,
-# 0xff, 0b1011, 0o377), unsigned, no leading zero
-RE_DSL_LITERAL = re.compile(r"((0|[1-9]\d*)(\.\d+)?([eE][+-]?\d+)?|0x[0-9a-fA-F]+|0b[01]+|0o[0-7]+)\Z", re.ASCII)
+# DSL literal carrier: only spellings the documentation promises for number literals, unsigned, no
+# leading zero: 7, 8.9, 1e5, 0xff, 0b1011, 0o377 (reference-main-data-types.md "Type inference for
+# literal and record data": the same scan for "data files, or ... DSL expressions you key in";
+# reference-main-arithmetic.md: prefixes 0x 0o 0b), and the two C/Go float spellings with a bare point
+# (5. and .5, optionally with an exponent) which the same float grammar admits
+RE_DSL_LITERAL = re.compile(r"((0|[1-9]\d*)(\.\d*)?([eE][+-]?\d+)?|\.\d+([eE][+-]?\d+)?"
+                            r"|0x[0-9a-fA-F]+|0b[01]+|0o[0-7]+)\Z", re.ASCII)
 
 
 def is_dsl_literal(s):
